@@ -116,8 +116,10 @@ type runner struct {
 	cross       *interp.CrossCheck
 	deadline    time.Time
 	deadlineHit bool
-	binMu       sync.Mutex
-	verbose     bool
+	// paths re-run because their first run ended on a solver time-out
+	retriedPaths int
+	binMu        sync.Mutex
+	verbose      bool
 }
 
 func main() {
@@ -404,10 +406,45 @@ func (r *runner) explore(hs []*harnessRun) {
 				if !skip {
 					cfg := r.cfg
 					cfg.WantWitness = want
-					res = r.l.P.RunPath(h.fn, it.prefix, solver, cfg, cov)
-					if solver.Dead() {
-						solver.Close()
-						solver = nil
+					// a path that ended on a solver time-out (no answer, or "unknown") is
+					// run again, up to two more times, with a fresh solver process: the
+					// query and its bound are the same, only a definite answer counts
+					for attempt := 0; ; attempt++ {
+						res = r.l.P.RunPath(h.fn, it.prefix, solver, cfg, cov)
+						if solver.Dead() {
+							r.covMu.Lock()
+							r.solverStats.queries += solver.Queries
+							r.solverStats.sat += solver.NSat
+							r.solverStats.unsat += solver.NUnsat
+							r.solverStats.unk += solver.NUnk
+							r.solverStats.time += solver.Time
+							r.covMu.Unlock()
+							solver.Close()
+							solver = nil
+						}
+						if (res.Outcome != "solver" && res.Unknowns == 0) || attempt >= 2 {
+							break
+						}
+						r.covMu.Lock()
+						r.retriedPaths++
+						r.covMu.Unlock()
+						if solver != nil {
+							solver.Close()
+						}
+						var err error
+						solver, err = smt.NewSolver("z3", 60000)
+						if err != nil {
+							fmt.Fprintln(os.Stderr, "cannot start z3:", err)
+							os.Exit(2)
+						}
+					}
+					if solver == nil {
+						var err error
+						solver, err = smt.NewSolver("z3", 60000)
+						if err != nil {
+							fmt.Fprintln(os.Stderr, "cannot start z3:", err)
+							os.Exit(2)
+						}
 					}
 					r.absorb(h, res)
 				}
